@@ -1,5 +1,1350 @@
-//! Reference interpreter of the samlang source language (layer C oracle). See DESIGN.md 3.2.
-pub fn main(_args: &[String]) {
-  eprintln!("src-run: not built yet");
-  std::process::exit(2);
+//! Reference interpreter of the samlang *source* language (layer C oracle). See DESIGN.md 3.2.
+//!
+//! It evaluates the type-checked source AST (`Module<Arc<Type>>`) directly, following
+//! /repo/packages/samlang-website/spec.md. Nothing here goes through the compiler's lowering or
+//! optimisation passes: only the parser and the checker of /repo are used.
+//!
+//! Every place where spec.md is silent, self-contradictory, or says "implementation-defined" ends
+//! the run with `Ending::Excluded(<rule>)` instead of picking a behaviour. The rules are listed in
+//! `EXCLUDED_RULES` below with the spec sections they come from.
+use samlang_ast::source::{
+  ClassMemberDefinition, Literal, Module, Toplevel, TypeDefinition,
+  expr::{self, BinaryOperator as Bop, E, UnaryOperator},
+  pattern::{MatchingPattern, TuplePattern},
+};
+use samlang_checker::type_::Type;
+use samlang_heap::{Heap, ModuleReference, PStr};
+use std::{cell::RefCell, collections::HashMap, rc::Rc, sync::Arc};
+
+// ------------------------------------------------------------------------------------------------
+// Public API
+// ------------------------------------------------------------------------------------------------
+
+#[derive(Debug, Clone, PartialEq, Eq)]
+pub enum Ending {
+  /// `Main.main` returned.
+  Return,
+  /// `Process.panic(msg)`.
+  Panic(String),
+  /// Implementation-defined / unspecified behaviour reached; the string names the rule.
+  Excluded(String),
+  OutOfFuel,
+  StackOverflow,
+  /// Documented `Vec` panic (spec 5.12 / 10.3): `pop` on empty, `get`/`set` out of bounds.
+  VecBounds(String),
+  /// The parser or checker reported errors (rendered messages).
+  Rejected(Vec<String>),
+  /// Unsupported construct or internal inconsistency (e.g. exhaustive match fell through).
+  InterpreterError(String),
+}
+
+#[derive(Debug, Clone, PartialEq, Eq)]
+pub struct Outcome {
+  pub lines: Vec<String>,
+  pub ending: Ending,
+}
+
+/// The rules under which a run is `Excluded`, with their justification in spec.md.
+pub const EXCLUDED_RULES: &[(&str, &str)] = &[
+  ("overflow", "13.3: arithmetic that overflows the 32-bit range is implementation-defined (+ - * unary -, MIN / -1)"),
+  ("div-by-zero", "6.9: division (and remainder) by zero is 'defined by the target platform'"),
+  ("div-rounding-unspecified", "only with strict_div: 6.9 says 'integer division' only; 12.7 calls it 'truncating' while describing Math.floor"),
+  ("rem-sign-unspecified", "6.9: '%' is 'Remainder (mod)'; sign of a non-zero result with a negative operand is not specified"),
+  ("toInt-non-numeral", "10.1: Str.toInt on invalid input is implementation-defined; valid = IntLiteral grammar of 6.1"),
+  ("toInt-out-of-range", "10.1 + 13.3: numeral outside the 32-bit range"),
+  ("eq-on-objects", "6.9 says == is structural on nominal values, 5.12 says the default is reference identity; excluded when the two readings differ: operands separately built but structurally equal, or containing distinct function values"),
+  ("call-order", "6.7.5 / 6.15(2): arguments are evaluated before the callee expression (the reverse of textual order); runs where the two orders are distinguishable are excluded"),
+  ("vec-capacity-advisory", "5.12: capacity() is an implementation hint, backends may round up"),
+  ("vec-negative-capacity", "5.12: withCapacity(n) for n < 0 is not specified"),
+  ("vec-eq-identity", "5.12: Vec.eq compares non-primitive elements by reference identity; identity of separately built values is not specified"),
+  ("user-defined-init", "4.1.1: init is auto-generated for struct classes; a user function named init in a struct class is not specified"),
+];
+
+/// How `f(args)` orders the evaluation of the callee expression and of the arguments.
+#[derive(Debug, Clone, Copy, PartialEq, Eq)]
+pub enum CallOrder {
+  /// Spec order (arguments, then callee), but if the other order could be told apart => Excluded.
+  Exclude,
+  /// Literal spec 6.7.5 / 6.15: arguments left to right, then the callee expression.
+  ArgsFirst,
+  /// Textual order: callee expression (receiver), then arguments.
+  CalleeFirst,
+}
+
+#[derive(Debug, Clone, Copy)]
+pub struct Options {
+  pub call_order: CallOrder,
+  /// true: a division with a negative inexact quotient is Excluded("div-rounding-unspecified").
+  /// false (default): truncation toward zero, the semantics named by spec 12.7.
+  pub strict_div: bool,
+  /// Native stack of the interpreter thread; 0 = derive from `max_depth` (about 6 KiB per level,
+  /// between 256 MiB and 8 GiB of address space; pages are only touched when used). Running out
+  /// of it is detected and reported as `StackOverflow`, never a crash.
+  pub stack_bytes: usize,
+}
+
+impl Default for Options {
+  fn default() -> Self {
+    let env = |k: &str| std::env::var(k).ok();
+    Options {
+      call_order: match env("SRCSEM_CALL_ORDER").as_deref() {
+        Some("args-first") => CallOrder::ArgsFirst,
+        Some("callee-first") => CallOrder::CalleeFirst,
+        _ => CallOrder::Exclude,
+      },
+      strict_div: env("SRCSEM_STRICT_DIV").is_some(),
+      stack_bytes: env("SRCSEM_STACK_MB").and_then(|s| s.parse::<usize>().ok()).unwrap_or(0) << 20,
+    }
+  }
+}
+
+/// sources: (module name like "tests.Foo" or "Main", source text). std modules are added
+/// automatically from /repo/std (or $SAMLANG_STD_DIR) unless a source with that name is given.
+/// entry: module whose `class Main { function main(): unit = ... }` is run.
+pub fn run_program(sources: &[(String, String)], entry: &str, fuel: u64, max_depth: usize) -> Outcome {
+  run_program_with(sources, entry, fuel, max_depth, Options::default())
+}
+
+pub fn run_program_with(
+  sources: &[(String, String)],
+  entry: &str,
+  fuel: u64,
+  max_depth: usize,
+  opts: Options,
+) -> Outcome {
+  let internal = |m: String| Outcome { lines: Vec::new(), ending: Ending::InterpreterError(m) };
+  let mut opts = opts;
+  if opts.stack_bytes == 0 {
+    opts.stack_bytes = max_depth.saturating_mul(6 << 10).clamp(256 << 20, 8 << 30);
+  }
+  std::thread::scope(|scope| {
+    let spawned = loop {
+      let attempt = std::thread::Builder::new().stack_size(opts.stack_bytes).spawn_scoped(scope, move || {
+        // Never panic: anything unexpected in the front end or in here becomes InterpreterError.
+        std::panic::catch_unwind(std::panic::AssertUnwindSafe(|| {
+          run_on_this_thread(sources, entry, fuel, max_depth, opts)
+        }))
+      });
+      // A refused reservation is retried with half the size; the stack guard keeps that safe.
+      if attempt.is_err() && opts.stack_bytes > (64 << 20) {
+        opts.stack_bytes /= 2;
+        continue;
+      }
+      break attempt;
+    };
+    match spawned {
+      Err(e) => internal(format!("cannot spawn interpreter thread: {e}")),
+      Ok(handle) => match handle.join() {
+        Ok(Ok(outcome)) => outcome,
+        Ok(Err(p)) | Err(p) => internal(format!("rust panic: {}", panic_message(&p))),
+      },
+    }
+  })
+}
+
+fn panic_message(p: &Box<dyn std::any::Any + Send>) -> String {
+  if let Some(s) = p.downcast_ref::<&str>() {
+    s.to_string()
+  } else if let Some(s) = p.downcast_ref::<String>() {
+    s.clone()
+  } else {
+    "<non-string payload>".to_string()
+  }
+}
+
+// ------------------------------------------------------------------------------------------------
+// Front end: parse + check with the real /repo crates
+// ------------------------------------------------------------------------------------------------
+
+type Ty = Arc<Type>;
+type Ex = E<Ty>;
+type ClassKey = (ModuleReference, PStr);
+
+fn std_sources() -> Result<Vec<(String, String)>, String> {
+  let dir = std::env::var("SAMLANG_STD_DIR").unwrap_or_else(|_| "/repo/std".to_string());
+  let mut out = Vec::new();
+  let rd = std::fs::read_dir(&dir).map_err(|e| format!("cannot read std dir {dir}: {e}"))?;
+  for entry in rd.flatten() {
+    let path = entry.path();
+    if path.extension().and_then(|s| s.to_str()) == Some("sam") {
+      let stem = path.file_stem().and_then(|s| s.to_str()).unwrap_or("").to_string();
+      let text = std::fs::read_to_string(&path).map_err(|e| format!("{}: {e}", path.display()))?;
+      out.push((format!("std.{stem}"), text));
+    }
+  }
+  out.sort();
+  Ok(out)
+}
+
+fn run_on_this_thread(
+  sources: &[(String, String)],
+  entry: &str,
+  fuel: u64,
+  max_depth: usize,
+  opts: Options,
+) -> Outcome {
+  let internal = |m: String| Outcome { lines: Vec::new(), ending: Ending::InterpreterError(m) };
+  let mut all: Vec<(String, String)> = sources.to_vec();
+  match std_sources() {
+    Ok(stds) => {
+      for (name, text) in stds {
+        if !all.iter().any(|(n, _)| *n == name) {
+          all.push((name, text));
+        }
+      }
+    }
+    Err(e) => return internal(e),
+  }
+  let mut heap = Heap::new();
+  let mut error_set = samlang_errors::ErrorSet::new();
+  let mut texts = HashMap::new();
+  let mut parsed = HashMap::new();
+  let mut entry_ref = None;
+  for (name, text) in &all {
+    let mod_ref =
+      heap.alloc_module_reference_from_string_vec(name.split('.').map(|s| s.to_string()).collect());
+    if name == entry {
+      entry_ref = Some(mod_ref);
+    }
+    let module =
+      samlang_parser::parse_source_module_from_text(text, mod_ref, &mut heap, &mut error_set);
+    parsed.insert(mod_ref, module);
+    texts.insert(mod_ref, text.clone());
+  }
+  let Some(entry_ref) = entry_ref else {
+    return internal(format!("entry module {entry} is not among the sources"));
+  };
+  let (checked, _) = samlang_checker::type_check_sources(&parsed, &mut error_set);
+  if error_set.has_errors() {
+    let msgs = error_set
+      .errors()
+      .iter()
+      .map(|e| {
+        format!("{}: {}", e.location.pretty_print(&heap), e.to_ide_format(&heap, &texts).ide_error)
+      })
+      .collect();
+    return Outcome { lines: Vec::new(), ending: Ending::Rejected(msgs) };
+  }
+  let mut interp = Interp::new(&heap, &checked, fuel, max_depth, opts);
+  let ending = match interp.run_main(entry_ref) {
+    Ok(()) => Ending::Return,
+    Err(Stop::Panic(m)) => Ending::Panic(m),
+    Err(Stop::Excluded(m)) => Ending::Excluded(m),
+    Err(Stop::OutOfFuel) => Ending::OutOfFuel,
+    Err(Stop::StackOverflow) => Ending::StackOverflow,
+    Err(Stop::VecBounds(m)) => Ending::VecBounds(m),
+    Err(Stop::Internal(m)) => Ending::InterpreterError(m),
+  };
+  Outcome { lines: std::mem::take(&mut interp.lines), ending }
+}
+
+// ------------------------------------------------------------------------------------------------
+// Values and environments
+// ------------------------------------------------------------------------------------------------
+
+/// Why evaluation stopped before `Main.main` returned.
+enum Stop {
+  Panic(String),
+  Excluded(String),
+  OutOfFuel,
+  StackOverflow,
+  VecBounds(String),
+  Internal(String),
+}
+type R<X> = Result<X, Stop>;
+
+fn excluded<X>(rule: &str) -> R<X> {
+  Err(Stop::Excluded(rule.to_string()))
+}
+fn internal<X>(msg: impl Into<String>) -> R<X> {
+  Err(Stop::Internal(msg.into()))
+}
+
+/// Run-time values. Generics are erased (spec 5.4: type variables carry no run-time content), so a
+/// value never records type arguments; nominal values record their class for dynamic dispatch.
+#[derive(Clone)]
+enum Value<'a> {
+  Unit,
+  Int(i32),
+  Bool(bool),
+  Str(Rc<str>),
+  /// Instance of a struct class (4.1.1); tuples are instances of std.tuples classes (5.5).
+  Struct(Rc<Instance<'a>>),
+  /// Instance of an enum class (4.1.2): `tag` is the variant's position in the declaration.
+  Variant(Rc<Instance<'a>>),
+  Fun(Rc<Fun<'a>>),
+  Vec(Rc<RefCell<Vec<Value<'a>>>>),
+  /// A class name used as an expression (6.4).
+  Class(ClassKey),
+}
+
+struct Instance<'a> {
+  class: ClassKey,
+  tag: usize,
+  fields: Vec<Value<'a>>,
+}
+
+enum Fun<'a> {
+  Lambda { params: Vec<PStr>, body: &'a Ex, env: Env<'a> },
+  /// `Foo.bar` used as a value (also constructors and builtin static functions).
+  Static(ClassKey, PStr),
+  /// `obj.method` used as a value: receiver is evaluated when the reference is (12.2 item 6).
+  Bound(Value<'a>, PStr),
+}
+
+/// What a resolved call runs: a user-defined member (with its receiver) or a lambda.
+enum Callee<'a> {
+  Member(&'a ClassMemberDefinition<Ty>, Option<Value<'a>>),
+  Lambda(Rc<Fun<'a>>),
+}
+
+/// Result of evaluating an expression in tail position: a value, or a call still to be made.
+enum Step<'a> {
+  Done(Value<'a>),
+  Call(Callee<'a>, Vec<Value<'a>>),
+}
+
+/// Persistent environment: a lambda captures it by cloning one pointer (6.12: captured variables
+/// are read-only, and all bindings are immutable, so sharing is unobservable).
+#[derive(Clone)]
+struct Env<'a>(Option<Rc<EnvNode<'a>>>);
+struct EnvNode<'a> {
+  name: PStr,
+  value: Value<'a>,
+  next: Env<'a>,
+}
+
+impl<'a> Env<'a> {
+  fn bind(&self, name: PStr, value: Value<'a>) -> Env<'a> {
+    Env(Some(Rc::new(EnvNode { name, value, next: self.clone() })))
+  }
+  /// Nearest enclosing binding wins (6.2, 6.13.1 rebinding).
+  fn lookup(&self, name: PStr) -> Option<&Value<'a>> {
+    let mut cur = self;
+    while let Some(node) = &cur.0 {
+      if node.name == name {
+        return Some(&node.value);
+      }
+      cur = &node.next;
+    }
+    None
+  }
+}
+
+enum ClassKind {
+  Plain,
+  Struct { n_fields: usize, user_init: bool },
+  Enum { variants: Vec<(PStr, usize)> },
+}
+
+struct ClassInfo<'a> {
+  kind: ClassKind,
+  functions: HashMap<PStr, &'a ClassMemberDefinition<Ty>>,
+  methods: HashMap<PStr, &'a ClassMemberDefinition<Ty>>,
+}
+
+// ------------------------------------------------------------------------------------------------
+// The interpreter
+// ------------------------------------------------------------------------------------------------
+
+struct Interp<'a> {
+  heap: &'a Heap,
+  classes: HashMap<ClassKey, ClassInfo<'a>>,
+  lines: Vec<String>,
+  fuel: u64,
+  depth: usize,
+  max_depth: usize,
+  opts: Options,
+  /// Lowest stack address evaluation may reach (the rest is kept for dropping deep values).
+  stack_floor: usize,
+  /// Observable-effect counters used by the call-order rule: writes (println, Vec mutation) and
+  /// reads of mutable state (Vec length/get/eq).
+  fx_w: u64,
+  fx_r: u64,
+  /// $SRCSEM_TRACE: log every user-level call to stderr (diagnosis aid).
+  trace: bool,
+}
+
+#[inline(never)]
+fn stack_pointer() -> usize {
+  let marker = 0u8;
+  std::hint::black_box(&marker) as *const u8 as usize
+}
+
+/// Expressions whose evaluation cannot print, mutate, fail or diverge: evaluating them before or
+/// after anything else gives the same run.
+fn trivially_pure(e: &Ex) -> bool {
+  match e {
+    E::Literal(..) | E::LocalId(..) | E::ClassId(..) | E::Lambda(_) => true,
+    E::MethodAccess(m) => trivially_pure(&m.object),
+    E::FieldAccess(f) => trivially_pure(&f.object),
+    E::Tuple(_, l) => l.expressions.iter().all(trivially_pure),
+    _ => false,
+  }
+}
+
+/// Spec 2.2 escape sequences. The parser keeps the literal's text raw except that it already
+/// replaced `\"` by `"`, so only the remaining escapes are decoded here.
+fn decode_escapes(raw: &str) -> String {
+  if !raw.contains('\\') {
+    return raw.to_string();
+  }
+  let mut out = String::with_capacity(raw.len());
+  let mut chars = raw.chars();
+  while let Some(c) = chars.next() {
+    if c != '\\' {
+      out.push(c);
+      continue;
+    }
+    match chars.next() {
+      Some('t') => out.push('\t'),
+      Some('v') => out.push('\u{0B}'),
+      Some('0') => out.push('\0'),
+      Some('b') => out.push('\u{08}'),
+      Some('f') => out.push('\u{0C}'),
+      Some('n') => out.push('\n'),
+      Some('\\') => out.push('\\'),
+      Some('"') => out.push('"'),
+      Some(other) => {
+        out.push('\\');
+        out.push(other)
+      }
+      None => out.push('\\'),
+    }
+  }
+  out
+}
+
+impl<'a> Interp<'a> {
+  fn new(
+    heap: &'a Heap,
+    modules: &'a HashMap<ModuleReference, Module<Ty>>,
+    fuel: u64,
+    max_depth: usize,
+    opts: Options,
+  ) -> Self {
+    let mut classes = HashMap::new();
+    for (mod_ref, module) in modules {
+      for toplevel in &module.toplevels {
+        let Toplevel::Class(c) = toplevel else { continue };
+        let mut functions = HashMap::new();
+        let mut methods = HashMap::new();
+        for m in &c.members.members {
+          if m.decl.is_method {
+            methods.insert(m.decl.name.name, m);
+          } else {
+            functions.insert(m.decl.name.name, m);
+          }
+        }
+        let kind = match &c.type_definition {
+          None => ClassKind::Plain,
+          Some(TypeDefinition::Struct { fields, .. }) => ClassKind::Struct {
+            n_fields: fields.len(),
+            user_init: functions.contains_key(&PStr::INIT),
+          },
+          Some(TypeDefinition::Enum { variants, .. }) => ClassKind::Enum {
+            variants: variants
+              .iter()
+              .map(|v| {
+                (v.name.name, v.associated_data_types.as_ref().map_or(0, |l| l.annotations.len()))
+              })
+              .collect(),
+          },
+        };
+        classes.insert((*mod_ref, c.name.name), ClassInfo { kind, functions, methods });
+      }
+    }
+    // Three quarters of the thread's stack for evaluation, the rest for unwinding and drops.
+    let stack_floor = stack_pointer().saturating_sub(opts.stack_bytes / 4 * 3);
+    Interp { heap, classes, lines: Vec::new(), fuel, depth: 0, max_depth, opts, stack_floor, fx_w: 0, fx_r: 0, trace: std::env::var("SRCSEM_TRACE").is_ok() }
+  }
+
+  fn name(&self, p: PStr) -> String {
+    p.as_str(self.heap).to_string()
+  }
+
+  fn class_name(&self, k: ClassKey) -> String {
+    format!("{}.{}", k.0.pretty_print(self.heap), self.name(k.1))
+  }
+
+  fn run_main(&mut self, entry: ModuleReference) -> R<()> {
+    let key = (entry, PStr::MAIN_TYPE);
+    let main = self.classes.get(&key).and_then(|c| c.functions.get(&PStr::MAIN_FN)).copied();
+    match main {
+      Some(def) if def.decl.parameters.parameters.is_empty() => {
+        self.run_call(Callee::Member(def, None), Vec::new()).map(|_| ())
+      }
+      _ => internal("entry module has no `class Main { function main(): unit }`"),
+    }
+  }
+
+  // ---------------------------------------------------------------- calls
+
+  /// Runs a user-defined function, method or lambda to completion.
+  ///
+  /// A call in tail position of the body (final expression of a block, branch of if/match) is not
+  /// nested: it replaces the current activation. The language has no loops (14.2), iteration is
+  /// recursion, and spec 13.7 sets no recursion limit, so the oracle must survive loops written as
+  /// tail recursion of any length (tests.Benchmark: 20 million iterations). `max_depth` therefore
+  /// bounds the nesting of *non-tail* calls; fuel bounds everything else.
+  #[inline(never)]
+  fn run_call(&mut self, mut callee: Callee<'a>, mut args: Vec<Value<'a>>) -> R<Value<'a>> {
+    if self.depth >= self.max_depth {
+      return Err(Stop::StackOverflow);
+    }
+    self.depth += 1;
+    let result = loop {
+      let (body, env) = match self.activation(callee, args) {
+        Ok(x) => x,
+        Err(stop) => break Err(stop),
+      };
+      match self.eval_tail(body, &env) {
+        Ok(Step::Done(v)) => break Ok(v),
+        Ok(Step::Call(c, a)) => {
+          callee = c;
+          args = a;
+        }
+        Err(stop) => break Err(stop),
+      }
+    };
+    self.depth -= 1;
+    result
+  }
+
+  /// Binds `this` and the parameters (4.5, 6.12): the environment in which the body runs.
+  #[inline(never)]
+  fn activation(&self, callee: Callee<'a>, args: Vec<Value<'a>>) -> R<(&'a Ex, Env<'a>)> {
+    match callee {
+      Callee::Member(def, this) => {
+        if self.trace {
+          eprintln!("#call {} depth={}", self.name(def.decl.name.name), self.depth);
+        }
+        let params = &def.decl.parameters.parameters;
+        if params.len() != args.len() {
+          return internal(format!("arity mismatch calling {}", self.name(def.decl.name.name)));
+        }
+        let mut env = Env(None);
+        if let Some(t) = this {
+          env = env.bind(PStr::THIS, t);
+        }
+        for (p, a) in params.iter().zip(args) {
+          env = env.bind(p.name.name, a);
+        }
+        Ok((&def.body, env))
+      }
+      Callee::Lambda(f) => {
+        let Fun::Lambda { params, body, env } = &*f else { return internal("not a lambda") };
+        if params.len() != args.len() {
+          return internal("arity mismatch calling a lambda");
+        }
+        let mut env = env.clone();
+        for (p, a) in params.iter().zip(args) {
+          env = env.bind(*p, a);
+        }
+        Ok((*body, env))
+      }
+    }
+  }
+
+  #[inline(always)]
+  fn finish(&mut self, step: Step<'a>) -> R<Value<'a>> {
+    match step {
+      Step::Done(v) => Ok(v),
+      Step::Call(callee, args) => self.run_call(callee, args),
+    }
+  }
+
+  /// Calling a function value (6.7.3).
+  fn apply(&mut self, f: Value<'a>, args: Vec<Value<'a>>) -> R<Step<'a>> {
+    let Value::Fun(f) = f else { return internal("call of a non-function value") };
+    match &*f {
+      Fun::Lambda { .. } => Ok(Step::Call(Callee::Lambda(f), args)),
+      Fun::Static(class, name) => self.invoke_static(*class, *name, args),
+      Fun::Bound(recv, name) => self.invoke_method(recv.clone(), *name, args),
+    }
+  }
+
+  /// `Class.name(args)`: builtin static functions, generated constructors (10.4), user functions.
+  fn invoke_static(&mut self, class: ClassKey, name: PStr, args: Vec<Value<'a>>) -> R<Step<'a>> {
+    if class.0 == ModuleReference::ROOT {
+      return self.builtin_static(class.1, name, args).map(Step::Done);
+    }
+    let Some(info) = self.classes.get(&class) else {
+      return internal(format!("unknown class {}", self.class_name(class)));
+    };
+    match &info.kind {
+      ClassKind::Struct { n_fields, user_init } if name == PStr::INIT => {
+        if *user_init {
+          return excluded("user-defined-init");
+        }
+        if *n_fields != args.len() {
+          return internal("constructor arity mismatch");
+        }
+        return Ok(Step::Done(Value::Struct(Rc::new(Instance { class, tag: 0, fields: args }))));
+      }
+      ClassKind::Enum { variants } => {
+        if let Some(tag) = variants.iter().position(|(n, _)| *n == name) {
+          if variants[tag].1 != args.len() {
+            return internal("variant constructor arity mismatch");
+          }
+          return Ok(Step::Done(Value::Variant(Rc::new(Instance { class, tag, fields: args }))));
+        }
+      }
+      _ => {}
+    }
+    match info.functions.get(&name).copied() {
+      Some(def) => Ok(Step::Call(Callee::Member(def, None), args)),
+      None => {
+        internal(format!("no function {} in class {}", self.name(name), self.class_name(class)))
+      }
+    }
+  }
+
+  /// `recv.name(args)`: dynamic dispatch on the receiver's run-time class. This is what makes
+  /// interface-typed and bounded-generic receivers (4.2, 5.6) work with erased generics.
+  fn invoke_method(&mut self, recv: Value<'a>, name: PStr, args: Vec<Value<'a>>) -> R<Step<'a>> {
+    let class = match &recv {
+      Value::Struct(o) | Value::Variant(o) => o.class,
+      Value::Str(s) => return self.builtin_str_method(s, name, args).map(Step::Done),
+      Value::Vec(v) => return self.builtin_vec_method(v, name, args).map(Step::Done),
+      Value::Class(class) => return self.invoke_static(*class, name, args),
+      _ => return internal(format!("method {} on a value without a class", self.name(name))),
+    };
+    match self.classes.get(&class).and_then(|c| c.methods.get(&name)).copied() {
+      Some(def) => Ok(Step::Call(Callee::Member(def, Some(recv)), args)),
+      None => internal(format!("no method {} in class {}", self.name(name), self.class_name(class))),
+    }
+  }
+
+  #[inline(never)]
+  fn eval_args(&mut self, args: &'a [Ex], env: &Env<'a>) -> R<Vec<Value<'a>>> {
+    let mut out = Vec::with_capacity(args.len());
+    for a in args {
+      out.push(self.eval(a, env)?); // 6.7.5: left to right
+    }
+    Ok(out)
+  }
+
+  /// Evaluates the callee-side expression and the arguments of a call.
+  ///
+  /// Spec 6.7.5: "Arguments are evaluated left-to-right before the callee is invoked. The callee
+  /// is evaluated only after all arguments." and 6.15(2): "arguments are evaluated left-to-right,
+  /// then the callee is evaluated and invoked". That is the reverse of the textual order (for
+  /// `a().m(b())` it runs `b()` before `a()`), so in the default mode the spec order is followed
+  /// and the run is Excluded("call-order") whenever the textual order would be distinguishable:
+  /// both sides have observable effects, or one side ends the program while the other has effects.
+  #[inline(never)]
+  fn eval_callee_and_args(
+    &mut self,
+    callee: &'a Ex,
+    args: &'a [Ex],
+    env: &Env<'a>,
+  ) -> R<(Value<'a>, Vec<Value<'a>>)> {
+    match self.opts.call_order {
+      CallOrder::CalleeFirst => {
+        let f = self.eval(callee, env)?;
+        let a = self.eval_args(args, env)?;
+        return Ok((f, a));
+      }
+      CallOrder::ArgsFirst => {
+        let a = self.eval_args(args, env)?;
+        let f = self.eval(callee, env)?;
+        return Ok((f, a));
+      }
+      CallOrder::Exclude => {}
+    }
+    if trivially_pure(callee) || args.iter().all(trivially_pure) {
+      let a = self.eval_args(args, env)?;
+      let f = self.eval(callee, env)?;
+      return Ok((f, a));
+    }
+    const RULE: &str = "call-order";
+    let (w0, r0) = (self.fx_w, self.fx_r);
+    let args_result = self.eval_args(args, env);
+    let (wa, ra) = (self.fx_w - w0, self.fx_r - r0);
+    let (w1, r1) = (self.fx_w, self.fx_r);
+    match args_result {
+      Ok(a) => {
+        let f = match self.eval(callee, env) {
+          Ok(f) => f,
+          // The callee ends the program: textual order would not have shown the arguments' output.
+          Err(Stop::Panic(_) | Stop::VecBounds(_)) if wa > 0 => return excluded(RULE),
+          Err(stop) => return Err(stop),
+        };
+        let (wc, rc) = (self.fx_w - w1, self.fx_r - r1);
+        if (wc > 0 && (wa > 0 || ra > 0)) || (wa > 0 && rc > 0) {
+          return excluded(RULE);
+        }
+        Ok((f, a))
+      }
+      Err(stop @ (Stop::Panic(_) | Stop::VecBounds(_))) => {
+        // The arguments end the program. Under the textual order the callee would have run first:
+        // evaluate it now only to see whether it is silent (its result is discarded).
+        let kept_lines = self.lines.len();
+        let silent = self.eval(callee, env).is_ok();
+        let (wc, rc) = (self.fx_w - w1, self.fx_r - r1);
+        self.lines.truncate(kept_lines);
+        if silent && wc == 0 && !(wa > 0 && rc > 0) { Err(stop) } else { excluded(RULE) }
+      }
+      Err(stop) => Err(stop),
+    }
+  }
+
+  // ---------------------------------------------------------------- builtins (5.10-5.12, 10)
+
+  fn builtin_static(&mut self, class: PStr, name: PStr, mut args: Vec<Value<'a>>) -> R<Value<'a>> {
+    let arg0 = if args.is_empty() { None } else { Some(args.swap_remove(0)) };
+    let heap = self.heap;
+    match (class.as_str(heap), name.as_str(heap), arg0) {
+      ("Process", "println", Some(Value::Str(s))) => {
+        self.fx_w += 1;
+        self.lines.push(s.to_string());
+        Ok(Value::Unit)
+      }
+      ("Process", "panic", Some(Value::Str(s))) => Err(Stop::Panic(s.to_string())),
+      ("Str", "fromInt", Some(Value::Int(i))) => Ok(Value::Str(i.to_string().into())),
+      ("Vec", "empty", None) => Ok(Value::Vec(Rc::new(RefCell::new(Vec::new())))),
+      ("Vec", "of", Some(v)) => Ok(Value::Vec(Rc::new(RefCell::new(vec![v])))),
+      ("Vec", "withCapacity", Some(Value::Int(n))) => {
+        if n < 0 {
+          return excluded("vec-negative-capacity");
+        }
+        // Capacity is never observable here (capacity() is excluded), so nothing is reserved.
+        Ok(Value::Vec(Rc::new(RefCell::new(Vec::new()))))
+      }
+      _ => internal(format!("unsupported builtin {}.{}", self.name(class), self.name(name))),
+    }
+  }
+
+  fn builtin_str_method(&mut self, s: &Rc<str>, name: PStr, args: Vec<Value<'a>>) -> R<Value<'a>> {
+    if name != PStr::TO_INT || !args.is_empty() {
+      return internal(format!("unsupported Str method {}", self.name(name)));
+    }
+    // 10.1: "Behavior on invalid input is implementation-defined". Valid input is taken to be
+    // exactly the IntLiteral grammar of 6.1: '-'? ('0' | [1-9][0-9]*), within the 32-bit range.
+    let digits = s.strip_prefix('-').unwrap_or(s);
+    let well_formed = !digits.is_empty()
+      && digits.bytes().all(|b| b.is_ascii_digit())
+      && (digits == "0" || !digits.starts_with('0'));
+    if !well_formed {
+      return excluded("toInt-non-numeral");
+    }
+    match s.parse::<i32>() {
+      Ok(i) => Ok(Value::Int(i)),
+      Err(_) => excluded("toInt-out-of-range"),
+    }
+  }
+
+  fn builtin_vec_method(
+    &mut self,
+    v: &Rc<RefCell<Vec<Value<'a>>>>,
+    name: PStr,
+    mut args: Vec<Value<'a>>,
+  ) -> R<Value<'a>> {
+    let arg1 = if args.len() > 1 { args.pop() } else { None };
+    let arg0 = args.pop();
+    match (name.as_str(self.heap), arg0, arg1) {
+      ("length", None, None) => {
+        self.fx_r += 1;
+        Ok(Value::Int(v.borrow().len() as i32))
+      }
+      ("capacity", None, None) => excluded("vec-capacity-advisory"),
+      // reserve only affects capacity, which is never observable here.
+      ("reserve", Some(Value::Int(_)), None) => Ok(Value::Unit),
+      ("push", Some(x), None) => {
+        self.fx_w += 1;
+        v.borrow_mut().push(x);
+        Ok(Value::Unit)
+      }
+      ("pop", None, None) => {
+        self.fx_w += 1;
+        match v.borrow_mut().pop() {
+          Some(x) => Ok(x),
+          None => Err(Stop::VecBounds("pop: empty Vec".to_string())),
+        }
+      }
+      ("get", Some(Value::Int(i)), None) => {
+        self.fx_r += 1;
+        let vec = v.borrow();
+        match usize::try_from(i).ok().and_then(|i| vec.get(i)) {
+          Some(x) => Ok(x.clone()),
+          None => Err(Stop::VecBounds(format!("get: index {i} length {}", vec.len()))),
+        }
+      }
+      ("set", Some(Value::Int(i)), Some(x)) => {
+        self.fx_w += 1;
+        let mut vec = v.borrow_mut();
+        let len = vec.len();
+        match usize::try_from(i).ok().and_then(|i| vec.get_mut(i)) {
+          Some(slot) => {
+            *slot = x;
+            Ok(Value::Unit)
+          }
+          None => Err(Stop::VecBounds(format!("set: index {i} length {len}"))),
+        }
+      }
+      ("eq", Some(Value::Vec(other)), None) => {
+        self.fx_r += 1;
+        if Rc::ptr_eq(v, &other) {
+          return Ok(Value::Bool(true));
+        }
+        let (a, b) = (v.borrow(), other.borrow());
+        if a.len() != b.len() {
+          return Ok(Value::Bool(false));
+        }
+        for (x, y) in a.iter().zip(b.iter()) {
+          if !Self::vec_elements_identical(x, y)? {
+            return Ok(Value::Bool(false));
+          }
+        }
+        Ok(Value::Bool(true))
+      }
+      _ => internal(format!("unsupported Vec method {}", self.name(name))),
+    }
+  }
+
+  /// 5.12: "Elements are compared by reference identity (`==`-style)"; int elements are
+  /// "transparently boxed", so primitives compare by value. Two non-primitive elements are
+  /// identical when they are the same allocation; whether separately built ones are is not
+  /// something the spec defines, so that case is excluded (except strings with different text).
+  fn vec_elements_identical(x: &Value<'a>, y: &Value<'a>) -> R<bool> {
+    Ok(match (x, y) {
+      (Value::Unit, Value::Unit) => true,
+      (Value::Int(a), Value::Int(b)) => a == b,
+      (Value::Bool(a), Value::Bool(b)) => a == b,
+      (Value::Str(a), Value::Str(b)) if Rc::ptr_eq(a, b) => true,
+      (Value::Str(a), Value::Str(b)) if a != b => false,
+      (Value::Struct(a), Value::Struct(b)) | (Value::Variant(a), Value::Variant(b))
+        if Rc::ptr_eq(a, b) =>
+      {
+        true
+      }
+      (Value::Fun(a), Value::Fun(b)) if Rc::ptr_eq(a, b) => true,
+      (Value::Vec(a), Value::Vec(b)) if Rc::ptr_eq(a, b) => true,
+      _ => return excluded("vec-eq-identity"),
+    })
+  }
+
+  // ---------------------------------------------------------------- operators (6.8, 6.9)
+
+  fn arith(&self, op: Bop, a: i32, b: i32) -> R<Value<'a>> {
+    // Computed in i64; any result outside the 32-bit range is 13.3 "implementation-defined".
+    let (a, b) = (a as i64, b as i64);
+    let r = match op {
+      Bop::MUL => a * b,
+      Bop::PLUS => a + b,
+      Bop::MINUS => a - b,
+      Bop::DIV => {
+        if b == 0 {
+          return excluded("div-by-zero");
+        }
+        // 6.9 only says "Integer division". 12.7 names the intended semantics: "WebAssembly's
+        // truncating division" (while describing a Math.floor implementation, which is not that).
+        // Truncation toward zero is therefore used; with `strict_div` the cases where truncation
+        // and floor differ are excluded instead.
+        if self.opts.strict_div && a % b != 0 && (a < 0) != (b < 0) {
+          return excluded("div-rounding-unspecified");
+        }
+        a / b // MIN / -1 = 2147483648 is caught by the range check below
+      }
+      Bop::MOD => {
+        if b == 0 {
+          return excluded("div-by-zero");
+        }
+        let r = a % b;
+        // "Remainder (mod)": no sign convention is given, so only the cases on which truncated,
+        // floored and Euclidean remainders agree are defined.
+        if r != 0 && (a < 0 || b < 0) {
+          return excluded("rem-sign-unspecified");
+        }
+        r
+      }
+      _ => return internal("not an arithmetic operator"),
+    };
+    match i32::try_from(r) {
+      Ok(r) => Ok(Value::Int(r)),
+      Err(_) => excluded("overflow"),
+    }
+  }
+
+  /// `==` (6.9: "structural ... all components are recursively equal"). int, bool, unit compare by
+  /// value and Str by its characters. For class instances, Vecs and functions the spec contradicts
+  /// itself: 6.9 says structural, 5.12 says the language's default for boxed values is reference
+  /// identity (and std/map.sam relies on `l == ll` being a cheap identity test). Both readings agree
+  /// when the operands are the very same object (true) and when they differ structurally (false);
+  /// only when they are separately built but structurally equal (or contain distinct function
+  /// values, whose structure is not comparable) is the run excluded.
+  fn equal(a: &Value<'a>, b: &Value<'a>) -> R<bool> {
+    let mut readings_disagree = false;
+    let mut work = vec![(a.clone(), b.clone())]; // explicit stack: values can be very deep lists
+    while let Some((x, y)) = work.pop() {
+      match (&x, &y) {
+        (Value::Unit, Value::Unit) => {}
+        (Value::Int(x), Value::Int(y)) if x == y => {}
+        (Value::Bool(x), Value::Bool(y)) if x == y => {}
+        (Value::Str(x), Value::Str(y)) if x == y => {}
+        (Value::Int(_), Value::Int(_))
+        | (Value::Bool(_), Value::Bool(_))
+        | (Value::Str(_), Value::Str(_)) => return Ok(false),
+        (Value::Struct(x), Value::Struct(y)) | (Value::Variant(x), Value::Variant(y)) => {
+          if Rc::ptr_eq(x, y) {
+            continue;
+          }
+          if x.class != y.class || x.tag != y.tag || x.fields.len() != y.fields.len() {
+            return Ok(false);
+          }
+          readings_disagree = true; // unless a component differs
+          work.extend(x.fields.iter().cloned().zip(y.fields.iter().cloned()));
+        }
+        (Value::Vec(x), Value::Vec(y)) => {
+          if Rc::ptr_eq(x, y) {
+            continue;
+          }
+          let (x, y) = (x.borrow(), y.borrow());
+          if x.len() != y.len() {
+            return Ok(false);
+          }
+          readings_disagree = true;
+          work.extend(x.iter().cloned().zip(y.iter().cloned()));
+        }
+        (Value::Fun(x), Value::Fun(y)) => {
+          if !Rc::ptr_eq(x, y) {
+            readings_disagree = true;
+          }
+        }
+        (Value::Class(x), Value::Class(y)) => {
+          if x != y {
+            return Ok(false);
+          }
+        }
+        _ => return internal("== on values of different kinds"),
+      }
+    }
+    if readings_disagree { excluded("eq-on-objects") } else { Ok(true) }
+  }
+
+  #[inline(never)]
+  fn eval_binary(&mut self, b: &'a expr::Binary<Ty>, env: &Env<'a>) -> R<Value<'a>> {
+    let v1 = self.eval(&b.e1, env)?; // 6.15(3): left operand first
+    match (b.operator, &v1) {
+      // 6.15(4): short circuit
+      (Bop::AND, Value::Bool(false)) => return Ok(Value::Bool(false)),
+      (Bop::OR, Value::Bool(true)) => return Ok(Value::Bool(true)),
+      _ => {}
+    }
+    let v2 = self.eval(&b.e2, env)?;
+    match (b.operator, v1, v2) {
+      (Bop::AND | Bop::OR, Value::Bool(_), Value::Bool(y)) => Ok(Value::Bool(y)),
+      (op @ (Bop::MUL | Bop::DIV | Bop::MOD | Bop::PLUS | Bop::MINUS), Value::Int(x), Value::Int(y)) => {
+        self.arith(op, x, y)
+      }
+      (Bop::LT, Value::Int(x), Value::Int(y)) => Ok(Value::Bool(x < y)),
+      (Bop::LE, Value::Int(x), Value::Int(y)) => Ok(Value::Bool(x <= y)),
+      (Bop::GT, Value::Int(x), Value::Int(y)) => Ok(Value::Bool(x > y)),
+      (Bop::GE, Value::Int(x), Value::Int(y)) => Ok(Value::Bool(x >= y)),
+      (Bop::EQ, x, y) => Ok(Value::Bool(Self::equal(&x, &y)?)),
+      (Bop::NE, x, y) => Ok(Value::Bool(!Self::equal(&x, &y)?)),
+      (Bop::CONCAT, Value::Str(x), Value::Str(y)) => {
+        let mut s = String::with_capacity(x.len() + y.len());
+        s.push_str(&x);
+        s.push_str(&y);
+        Ok(Value::Str(s.into()))
+      }
+      (op, _, _) => internal(format!("ill-typed operands for {op}")),
+    }
+  }
+
+  // ---------------------------------------------------------------- patterns (8)
+
+  /// Matches `v` against `p`, extending `env` with the bindings. On failure `env` may hold partial
+  /// bindings; callers match on a copy.
+  fn matches(&self, p: &'a MatchingPattern<Ty>, v: &Value<'a>, env: &mut Env<'a>) -> R<bool> {
+    match p {
+      MatchingPattern::Wildcard { .. } => Ok(true),
+      MatchingPattern::Id(id, _) => {
+        *env = env.bind(id.name, v.clone());
+        Ok(true)
+      }
+      MatchingPattern::Tuple(t) => match v {
+        Value::Struct(o) => self.matches_positional(t, &o.fields, env),
+        _ => internal("tuple pattern on a non-struct value"),
+      },
+      MatchingPattern::Object { elements, .. } => {
+        let Value::Struct(o) = v else { return internal("struct pattern on a non-struct value") };
+        for el in elements {
+          // 8.5: fields are matched by name; the checker resolved the name to its position.
+          let Some(field) = o.fields.get(el.field_order) else {
+            return internal("struct pattern field out of range");
+          };
+          if !self.matches(&el.pattern, field, env)? {
+            return Ok(false);
+          }
+        }
+        Ok(true)
+      }
+      MatchingPattern::Variant(vp) => {
+        let Value::Variant(o) = v else { return internal("variant pattern on a non-enum value") };
+        if o.tag != vp.tag_order {
+          return Ok(false);
+        }
+        match &vp.data_variables {
+          None => Ok(true),
+          Some(t) => self.matches_positional(t, &o.fields, env),
+        }
+      }
+      MatchingPattern::Or { patterns, .. } => {
+        // 8.9: "The first matching alternative determines the runtime bindings".
+        for alt in patterns {
+          let mut attempt = env.clone();
+          if self.matches(alt, v, &mut attempt)? {
+            *env = attempt;
+            return Ok(true);
+          }
+        }
+        Ok(false)
+      }
+    }
+  }
+
+  fn matches_positional(
+    &self,
+    t: &'a TuplePattern<Ty>,
+    fields: &[Value<'a>],
+    env: &mut Env<'a>,
+  ) -> R<bool> {
+    if t.elements.len() != fields.len() {
+      return internal("pattern arity differs from the value's");
+    }
+    for (el, field) in t.elements.iter().zip(fields) {
+      if !self.matches(&el.pattern, field, env)? {
+        return Ok(false);
+      }
+    }
+    Ok(true)
+  }
+
+  // ---------------------------------------------------------------- expressions (6, 7)
+
+  #[inline(never)]
+  fn eval_block(&mut self, b: &'a expr::Block<Ty>, env: &Env<'a>) -> R<Step<'a>> {
+    // 6.13: a block opens a scope; statements in order; value of the final expression or unit.
+    let mut env = env.clone();
+    for s in &b.statements {
+      match s {
+        expr::Statement::Expression(e) => {
+          self.eval(e, &env)?; // 7.2: value discarded
+        }
+        expr::Statement::Declaration(d) => {
+          let v = self.eval(&d.assigned_expression, &env)?; // 6.13.1: rhs sees the old binding
+          let mut extended = env.clone();
+          if !self.matches(&d.pattern, &v, &mut extended)? {
+            // The checker demands irrefutable `let` patterns, so this is its unsoundness.
+            return internal("let-pattern-mismatch: an accepted `let` pattern did not match");
+          }
+          env = extended;
+        }
+      }
+    }
+    match &b.expression {
+      Some(e) => self.eval_tail(e, &env),
+      None => Ok(Step::Done(Value::Unit)),
+    }
+  }
+
+  #[inline(never)]
+  fn eval_if_else(&mut self, mut ie: &'a expr::IfElse<Ty>, env: &Env<'a>) -> R<Step<'a>> {
+    loop {
+      // 6.15(6): condition first, then only the selected branch.
+      let mut branch_env = env.clone();
+      let taken = match ie.condition.as_ref() {
+        expr::IfElseCondition::Expression(c) => match self.eval(c, env)? {
+          Value::Bool(b) => b,
+          _ => return internal("if condition is not a bool"),
+        },
+        // 6.10.2: bindings are in scope in the first branch only.
+        expr::IfElseCondition::Guard(p, c) => {
+          let v = self.eval(c, env)?;
+          self.matches(p, &v, &mut branch_env)?
+        }
+      };
+      if taken {
+        return self.eval_block(&ie.e1, &branch_env);
+      }
+      match ie.e2.as_ref() {
+        expr::IfElseOrBlock::Block(b) => return self.eval_block(b, env),
+        // 6.10.3: `else if` chain
+        expr::IfElseOrBlock::IfElse(nested) => {
+          self.tick()?;
+          ie = nested;
+        }
+      }
+    }
+  }
+
+  #[inline(never)]
+  fn eval_match(&mut self, m: &'a expr::Match<Ty>, env: &Env<'a>) -> R<Step<'a>> {
+    let v = self.eval(&m.matched, env)?;
+    for case in &m.cases {
+      // Arms are tried in source order; the first arm whose pattern matches is selected.
+      let mut arm_env = env.clone();
+      if self.matches(&case.pattern, &v, &mut arm_env)? {
+        drop(v);
+        return self.eval_tail(&case.body, &arm_env);
+      }
+    }
+    // 6.11 requires exhaustiveness, so this is a checker unsoundness, not a language behaviour.
+    internal("match-fallthrough: no arm of an accepted match expression matched")
+  }
+
+  #[inline(never)]
+  fn eval_call(&mut self, c: &'a expr::Call<Ty>, env: &Env<'a>) -> R<Step<'a>> {
+    let args = &c.arguments.expressions[..];
+    match c.callee.as_ref() {
+      // `Class.f(args)`: nothing to evaluate on the callee side.
+      E::MethodAccess(m) if matches!(m.object.as_ref(), E::ClassId(..)) => {
+        let E::ClassId(_, mod_ref, id) = m.object.as_ref() else { unreachable!() };
+        let a = self.eval_args(args, env)?;
+        self.invoke_static((*mod_ref, id.name), m.method_name.name, a)
+      }
+      // `recv.m(args)`: the callee-side expression is the receiver.
+      E::MethodAccess(m) => {
+        let (recv, a) = self.eval_callee_and_args(&m.object, args, env)?;
+        self.invoke_method(recv, m.method_name.name, a)
+      }
+      callee => {
+        let (f, a) = self.eval_callee_and_args(callee, args, env)?;
+        self.apply(f, a)
+      }
+    }
+  }
+
+  fn tick(&mut self) -> R<()> {
+    if self.fuel == 0 {
+      return Err(Stop::OutOfFuel);
+    }
+    self.fuel -= 1;
+    Ok(())
+  }
+
+  /// Evaluates `e` to a value.
+  fn eval(&mut self, e: &'a Ex, env: &Env<'a>) -> R<Value<'a>> {
+    let step = self.eval_tail(e, env)?;
+    self.finish(step)
+  }
+
+  /// Evaluates `e`, except that a user-level call that is the last thing `e` does is returned
+  /// unperformed (see `run_call`). One unit of fuel per expression node.
+  fn eval_tail(&mut self, e: &'a Ex, env: &Env<'a>) -> R<Step<'a>> {
+    self.tick()?;
+    if stack_pointer() < self.stack_floor {
+      return Err(Stop::StackOverflow);
+    }
+    match e {
+      E::Call(c) => self.eval_call(c, env),
+      E::IfElse(ie) => self.eval_if_else(ie, env),
+      E::Match(m) => self.eval_match(m, env),
+      E::Block(b) => self.eval_block(b, env),
+      E::Binary(b) => self.eval_binary(b, env).map(Step::Done),
+      _ => self.eval_simple(e, env).map(Step::Done),
+    }
+  }
+
+  /// The expression forms that contain no tail position. Kept out of `eval_tail` so that the
+  /// frames of the recursive evaluation cycle stay small.
+  #[inline(never)]
+  fn eval_simple(&mut self, e: &'a Ex, env: &Env<'a>) -> R<Value<'a>> {
+    let value = match e {
+      E::Literal(_, Literal::Int(i)) => Value::Int(*i),
+      E::Literal(_, Literal::Bool(b)) => Value::Bool(*b),
+      E::Literal(_, Literal::String(s)) => Value::Str(decode_escapes(s.as_str(self.heap)).into()),
+      // 6.2 / 6.3: `this` is an ordinary binding made by the method call.
+      E::LocalId(_, id) => match env.lookup(id.name) {
+        Some(v) => v.clone(),
+        None => return internal(format!("unbound variable {}", self.name(id.name))),
+      },
+      E::ClassId(_, mod_ref, id) => Value::Class((*mod_ref, id.name)),
+      E::Tuple(common, list) => {
+        // 5.5: a tuple is an instance of std.tuples.Pair/Triple/TupleN ("desugared"), i.e.
+        // `Pair.init(e0, e1)`; its elements are therefore evaluated left to right like arguments.
+        let fields = self.eval_args(&list.expressions, env)?;
+        match common.type_.as_nominal() {
+          Some(n) => {
+            Value::Struct(Rc::new(Instance { class: (n.module_reference, n.id), tag: 0, fields }))
+          }
+          None => return internal("tuple expression without a nominal type"),
+        }
+      }
+      E::FieldAccess(f) => match self.eval(&f.object, env)? {
+        Value::Struct(o) => match usize::try_from(f.field_order).ok().and_then(|i| o.fields.get(i)) {
+          Some(v) => v.clone(),
+          None => return internal("field index out of range"),
+        },
+        _ => return internal("field access on a non-struct value"),
+      },
+      // A function or method used as a value (5.3 "function references, method references").
+      E::MethodAccess(m) => Value::Fun(Rc::new(match self.eval(&m.object, env)? {
+        Value::Class(class) => Fun::Static(class, m.method_name.name),
+        recv => Fun::Bound(recv, m.method_name.name),
+      })),
+      E::Unary(u) => match (u.operator, self.eval(&u.argument, env)?) {
+        (UnaryOperator::NOT, Value::Bool(b)) => Value::Bool(!b),
+        (UnaryOperator::NEG, Value::Int(i)) => self.arith(Bop::MINUS, 0, i)?,
+        _ => return internal("ill-typed unary operand"),
+      },
+      E::Call(_) | E::IfElse(_) | E::Match(_) | E::Block(_) | E::Binary(_) => {
+        return internal("eval_simple on a compound expression");
+      }
+      E::Lambda(l) => Value::Fun(Rc::new(Fun::Lambda {
+        params: l.parameters.parameters.iter().map(|p| p.name.name).collect(),
+        body: &l.body,
+        env: env.clone(),
+      })),
+    };
+    Ok(value)
+  }
+}
+
+// ------------------------------------------------------------------------------------------------
+// CLI
+// ------------------------------------------------------------------------------------------------
+
+fn ending_kind_detail(e: &Ending) -> (&'static str, String) {
+  match e {
+    Ending::Return => ("return", String::new()),
+    Ending::Panic(m) => ("panic", m.clone()),
+    Ending::Excluded(m) => ("excluded", m.clone()),
+    Ending::OutOfFuel => ("out-of-fuel", String::new()),
+    Ending::StackOverflow => ("stack-overflow", String::new()),
+    Ending::VecBounds(m) => ("vec-bounds", m.clone()),
+    Ending::Rejected(ms) => ("rejected", ms.join("\n")),
+    Ending::InterpreterError(m) => ("interpreter-error", m.clone()),
+  }
+}
+
+fn collect_sam_files(dir: &std::path::Path, prefix: &str, out: &mut Vec<(String, String)>) {
+  let Ok(rd) = std::fs::read_dir(dir) else { return };
+  let mut entries: Vec<_> = rd.flatten().map(|e| e.path()).collect();
+  entries.sort();
+  for path in entries {
+    let stem = path.file_stem().and_then(|s| s.to_str()).unwrap_or("").to_string();
+    if path.is_dir() {
+      collect_sam_files(&path, &format!("{prefix}{stem}."), out);
+    } else if path.extension().and_then(|s| s.to_str()) == Some("sam")
+      && let Ok(text) = std::fs::read_to_string(&path)
+    {
+      out.push((format!("{prefix}{stem}"), text));
+    }
+  }
+}
+
+fn usage() -> ! {
+  eprintln!(
+    "usage: vh src-run <dir | file.sam | mod.name=file.sam>... --entry <module> [--fuel N] [--max-depth N]\n\
+     \x20      vh src-run --json <file.json>   ({{\"sources\": {{name: text}}, \"entry\": name, \"fuel\": N, \"max_depth\": N}})\n\
+     \x20      vh src-run --rules\n\
+     a directory D contributes modules <basename D>.<relative path>; a plain file contributes module <file stem>.\n\
+     env: SRCSEM_CALL_ORDER=args-first|callee-first  SRCSEM_STRICT_DIV=1  SRCSEM_STACK_MB=N  SAMLANG_STD_DIR=dir"
+  );
+  std::process::exit(2)
+}
+
+const DEFAULT_FUEL: u64 = 2_000_000_000;
+const DEFAULT_MAX_DEPTH: usize = 100_000;
+
+/// `vh src-run ...`: prints the program's lines then `#ending: <kind>[ <detail>]`; with `--json`
+/// reads the request from a file and prints one JSON object.
+pub fn main(args: &[String]) {
+  let mut sources: Vec<(String, String)> = Vec::new();
+  let (mut entry, mut fuel, mut max_depth) = (None, DEFAULT_FUEL, DEFAULT_MAX_DEPTH);
+  let mut json_mode = false;
+  let mut it = args.iter();
+  while let Some(arg) = it.next() {
+    match arg.as_str() {
+      "--rules" => {
+        for (rule, why) in EXCLUDED_RULES {
+          println!("{rule}\t{why}");
+        }
+        return;
+      }
+      "--entry" => entry = Some(it.next().cloned().unwrap_or_else(|| usage())),
+      "--fuel" => fuel = it.next().and_then(|s| s.parse().ok()).unwrap_or_else(|| usage()),
+      "--max-depth" => max_depth = it.next().and_then(|s| s.parse().ok()).unwrap_or_else(|| usage()),
+      "--json" => {
+        json_mode = true;
+        let path = it.next().unwrap_or_else(|| usage());
+        let request: serde_json::Value = match std::fs::read_to_string(path)
+          .map_err(|e| e.to_string())
+          .and_then(|t| serde_json::from_str(&t).map_err(|e| e.to_string()))
+        {
+          Ok(v) => v,
+          Err(e) => {
+            eprintln!("src-run: cannot read {path}: {e}");
+            std::process::exit(2)
+          }
+        };
+        if let Some(map) = request.get("sources").and_then(|s| s.as_object()) {
+          for (name, text) in map {
+            sources.push((name.clone(), text.as_str().unwrap_or("").to_string()));
+          }
+        }
+        if let Some(e) = request.get("entry").and_then(|e| e.as_str()) {
+          entry = Some(e.to_string());
+        }
+        if let Some(n) = request.get("fuel").and_then(|n| n.as_u64()) {
+          fuel = n;
+        }
+        if let Some(n) = request.get("max_depth").and_then(|n| n.as_u64()) {
+          max_depth = n as usize;
+        }
+      }
+      other => {
+        if let Some((name, path)) = other.split_once('=') {
+          match std::fs::read_to_string(path) {
+            Ok(text) => sources.push((name.to_string(), text)),
+            Err(e) => {
+              eprintln!("src-run: cannot read {path}: {e}");
+              std::process::exit(2)
+            }
+          }
+          continue;
+        }
+        let path = std::path::Path::new(other);
+        let stem = path.file_stem().and_then(|s| s.to_str()).unwrap_or("").to_string();
+        if path.is_dir() {
+          collect_sam_files(path, &format!("{stem}."), &mut sources);
+        } else {
+          match std::fs::read_to_string(path) {
+            Ok(text) => sources.push((stem, text)),
+            Err(e) => {
+              eprintln!("src-run: cannot read {other}: {e}");
+              std::process::exit(2)
+            }
+          }
+        }
+      }
+    }
+  }
+  let Some(entry) = entry else { usage() };
+  let outcome = run_program(&sources, &entry, fuel, max_depth);
+  let (kind, detail) = ending_kind_detail(&outcome.ending);
+  use std::io::Write;
+  let stdout = std::io::stdout();
+  let mut out = std::io::BufWriter::new(stdout.lock());
+  if json_mode {
+    let mut ending = serde_json::json!({ "kind": kind, "detail": detail });
+    if let Ending::Rejected(ms) = &outcome.ending {
+      ending["messages"] = serde_json::json!(ms);
+    }
+    let _ = writeln!(out, "{}", serde_json::json!({ "lines": outcome.lines, "ending": ending }));
+  } else {
+    for line in &outcome.lines {
+      let _ = writeln!(out, "{line}");
+    }
+    let _ = if detail.is_empty() {
+      writeln!(out, "#ending: {kind}")
+    } else {
+      writeln!(out, "#ending: {kind} {detail}")
+    };
+  }
+  let _ = out.flush();
 }
